@@ -83,8 +83,10 @@ C01_Ineligible(s, e, d, r, role) ==
         (~p.term /\ p.phase # "Unknown" /\ p.node # "" /\ p.node \notin CNodes(d) /\ ~Fits(s, p.node, r.tmpl))
           => (NT(<<"C01", "ineligible">>) /\ p.id \in DeletedIds(e))
 
+\* "pods in Unknown phase are never touched": read as never deleted (the clause sits among the deletion rules; removing the
+\* canary label from such a pod after a promotion is not held against the controller)
 C01_UnknownUntouched(s, e) ==
-    \A w \in Writes(e) : (w.kind = "Pod" /\ w.verb # "create" /\ HasPod(s, w.id)) => PodOf(s, w.id).phase # "Unknown"
+    \A w \in Writes(e) : (w.kind = "Pod" /\ w.verb = "delete" /\ HasPod(s, w.id)) => PodOf(s, w.id).phase # "Unknown"
 
 C01_Step(s, e) ==
     IsERS(s, e) =>
